@@ -47,6 +47,22 @@ PROPS["C16"] = {
     "explanation": "4 nested loop invariants over row/zone sum+count spec functions; accumulator typing obligations",
 }
 
+PROPS["C01"] = {
+    "modules": ["contracts.ops_ws2d"],
+    "contracts": ["hdc/algo/ops/ws2d.py::ws2d"],
+    "lemmas": [],
+    "standin": True,
+    "level": "proof",
+    "trusted": ["z3 5.1 / cvc5 1.0.3 / sympy 1.14 (ratfun)", "numpy.zeros / ndarray.copy (assumed)",
+                "ratfun cancels denominators symbolically; every denominator is a pivot d[k] or a ghost let whose positivity is a separate discharged obligation (FP, pivot_ge_lmda, dm1_pos, dm_pos)",
+                "uniqueness of the minimiser: (W + lmda D'D) is s.p.d. under the precondition (>= 2 positive weights), a standard fact that is not re-proved; the discharged positivity of all pivots of its LDL' factorisation is the algorithmic witness"],
+    "not_proved": ["float64 clause (relative error <= 1e-6): IEEE rounding is outside model R; bounded stand-in against the exact rational run of the real source"],
+    "assumptions": ["floats are exact reals (model R) -- this is literally the statement's 'executed in exact rational arithmetic' clause"],
+    "level_text": "ws2d: for all n >= 4, all y, all non-negative w with >= 2 positive entries and all lmda > 0 the returned vector satisfies every row of (W + lmda D'D) z = W y, no pivot is zero (ghost Schur-margin invariant with closed nlsat lemmas), all subscripts are in bounds; ~210 obligations from the real AST: z3, z3 with non-linear terms abstracted to uninterpreted functions, and the ratfun back end for the five row identities",
+    "level_note": "trusted: z3/cvc5/sympy; model R (exact reals) for the identity clause; float64 clause only bounded; Numba faithful (C13)",
+    "explanation": "forward/backward loop invariants in definitional form; ghost freeze of d,c,e,zf; row identities by oriented substitution + rational normal form",
+}
+
 ALL = ["C%02d" % i for i in range(1, 21)]
 NOT_APPLICABLE = {
     "C13": "statement about Numba's type inference/lowering and the ctypes binding of SciPy kernels (the translator), not about functions of /repo: no contract on hdc-algo source can establish or refute it; it is the stated assumption of every proof here",
